@@ -26,6 +26,21 @@
 (*                          request merged into the old reservation: traits *)
 (*                          the request does not mention are kept but their *)
 (*                          limits are never checked                        *)
+(*   "clamp_free"           _calc_free / _calc_free_traits return           *)
+(*                          max(free, 0): on a partition (or under a trait  *)
+(*                          limit) that is already oversubscribed in a      *)
+(*                          dimension, a request for exactly zero in that   *)
+(*                          dimension passes 0 <= 0 and is accepted         *)
+(*                                                                          *)
+(* OVERSUBSCRIPTION is a legal state: the environment may rewrite a         *)
+(* partition record with a smaller capacity or trait limit (Reconf).  What  *)
+(* the code does then, and what the property demands, is the same rule as   *)
+(* always -- free = capacity - sum(others) PER DIMENSION, possibly          *)
+(* NEGATIVE; a request is refused unless demand <= free in EVERY dimension; *)
+(* a zero demand does not pass a negative remainder (0 <= -N is false), so  *)
+(* nothing at all is admitted into an oversubscribed partition, nor any     *)
+(* reservation carrying an oversubscribed trait, until it is back within    *)
+(* its bounds.                                                              *)
 EXTENDS Naturals, Integers, Sequences, FiniteSets, TLC
 
 CONSTANT Defects
@@ -86,13 +101,21 @@ Effective(st, id, r) == [part |-> r.part, traits |-> EffTraits(st, id, r), q |->
 CheckedTraits(st, id, r) ==
   IF "update_checks_request" \in Defects THEN r.traits ELSE EffTraits(st, id, r)
 
-FitsOverall(st, id, e) ==
-  AllLe(AddV(e.q, SumQ(st.res, Others(st, id, e.part))), Cap(st, id.cell, e.part))
+(* free = bound - what the others hold, per dimension; may be NEGATIVE       *)
+(* (_calc_free, _calc_free_traits); the request passes when demand <= free  *)
+(* in every dimension (_check_limit)                                        *)
+SubV(u, v) == [d \in Dims |-> u[d] - v[d]]
+Clamp(u) == IF "clamp_free" \in Defects THEN [d \in Dims |-> IF u[d] < 0 THEN 0 ELSE u[d]] ELSE u
+FreeOverall(st, id, part) ==
+  Clamp(SubV(Cap(st, id.cell, part), SumQ(st.res, Others(st, id, part))))
+FreeTrait(st, id, part, t) ==
+  Clamp(SubV(Limits(st, id.cell, part)[t],
+             SumQ(st.res, {j \in Others(st, id, part) : t \in st.res[j].traits})))
+
+FitsOverall(st, id, e) == AllLe(e.q, FreeOverall(st, id, e.part))
 
 FitsTrait(st, id, e, t) ==
-  LET lim == Limits(st, id.cell, e.part)
-      sharing == {j \in Others(st, id, e.part) : t \in st.res[j].traits}
-  IN t \in DOMAIN lim => AllLe(AddV(e.q, SumQ(st.res, sharing)), lim[t])
+  t \in DOMAIN Limits(st, id.cell, e.part) => AllLe(e.q, FreeTrait(st, id, e.part, t))
 
 (* the property's notion of "fits": the reservation as it will be stored     *)
 Fits(st, id, r) ==
@@ -120,6 +143,11 @@ Drop(st, id) == [st EXCEPT !.res = [j \in Present(st) \ {id} |-> st.res[j]]]
 (* successor of a Create/Update request given the outcome                   *)
 After(st, id, r, out) == IF out = "ok" THEN Store(st, id, r) ELSE st
 
+(* the environment rewrites (or creates) a partition record                 *)
+Reconf(st, cell, part, p) ==
+  [st EXCEPT !.parts = [k \in DOMAIN st.parts \cup {<<cell, part>>} |->
+                          IF k = <<cell, part>> THEN p ELSE st.parts[k]]]
+
 -----------------------------------------------------------------------------
 (* C19: what is promised never exceeds capacity / trait limits              *)
 
@@ -136,6 +164,37 @@ InvTraitLimits(st) ==
       AllLe(SumQ(st.res, {j \in InGroup(st, g) : t \in st.res[j].traits}), lim[t])
 
 InvC19(st) == InvCapacity(st) /\ InvTraitLimits(st)
+
+(* the same, one constraint at a time: <<cell, part, "">> is the capacity   *)
+(* of a partition, <<cell, part, t>> the limit of trait t in it             *)
+Constraints(st) ==
+  {<<g[1], g[2], "">> : g \in Groups(st)}
+  \cup UNION {{<<g[1], g[2], t>> : t \in DOMAIN Limits(st, g[1], g[2])} : g \in Groups(st)}
+Holds(st, c) ==
+  LET members == InGroup(st, <<c[1], c[2]>>) IN
+  IF c[3] = "" THEN AllLe(SumQ(st.res, members), Cap(st, c[1], c[2]))
+  ELSE c[3] \in DOMAIN Limits(st, c[1], c[2]) =>
+         AllLe(SumQ(st.res, {j \in members : c[3] \in st.res[j].traits}), Limits(st, c[1], c[2])[c[3]])
+
+(* what an ACCEPTED reservation guarantees, whatever state the rest is in:  *)
+(* its own partition is within capacity and every limited trait it carries  *)
+(* within its limit (with no reconfiguration, by induction, InvC19)         *)
+LocalOk(st, id) ==
+  id \in Present(st) =>
+    /\ Holds(st, <<id.cell, st.res[id].part, "">>)
+    /\ \A t \in st.res[id].traits : Holds(st, <<id.cell, st.res[id].part, t>>)
+
+(* exercised: the request meets a partition / trait that is already over    *)
+OverDims(st, id, r) ==
+  LET e == Effective(st, id, r)
+      f == SubV(Cap(st, id.cell, e.part), SumQ(st.res, Others(st, id, e.part)))
+      ft(t) == SubV(Limits(st, id.cell, e.part)[t],
+                    SumQ(st.res, {j \in Others(st, id, e.part) : t \in st.res[j].traits}))
+  IN {d \in Dims : f[d] < 0}
+     \cup UNION {{d \in Dims : ft(t)[d] < 0} : t \in e.traits \cap DOMAIN Limits(st, id.cell, e.part)}
+ZeroIntoOver(st, id, r) ==
+  LET e == Effective(st, id, r) IN
+  (\E d \in OverDims(st, id, r) : e.q[d] = 0) /\ (\E d \in Dims : e.q[d] > 0)
 
 (* exercised: the per-trait accounting really has something to count        *)
 SharesLimitedTrait(st, id, r) ==
